@@ -158,6 +158,7 @@ class Fn:
     out: list = field(default_factory=list)        # variables returned together with the result (mutated arguments, e.g. self)
     fuel: bool = False                              # the definition takes a fuel argument (while loops / recursion)
     subst: dict = field(default_factory=dict)      # source expression text -> (lean code over `v`, type)
+    stores: dict = field(default_factory=dict)     # assignment-target text -> variable name (DataFrame columns modelled as variables)
     tparams: list = field(default_factory=list)    # type parameters
     callbacks: dict = field(default_factory=dict)  # python name -> (lean binder text, arg count, result type)  state-passing over `v.cbs`
     skip_stmts: list = field(default_factory=list)  # source text of statements that are glue (replaced by `subst`-initialised params)
@@ -326,6 +327,9 @@ class FnTr:
                 return s1 + s2, f"(Int.fdiv {a} {b})", "Int"       # Python `//` floors
             if isinstance(e.op, ast.Mod):
                 return s1 + s2, f"(Int.fmod {a} {b})", "Int"
+        if ta == ("List", "Int") and tb == "Int" and isinstance(e.op, (ast.Sub, ast.Add)):
+            sign = "-" if isinstance(e.op, ast.Sub) else ""
+            return s1 + s2, f"(({a}).map (fun x => x + ({sign}{b})))", ("List", "Int")
         if isinstance(e.op, ast.Add) and isinstance(ta, tuple) and ta[0] == "List" and ta == tb:
             return s1 + s2, f"({a} ++ {b})", ta
         raise Untranslatable(f"{self.spec.lean}: binary `{ast.unparse(e)}` on {ta}, {tb}")
@@ -420,6 +424,11 @@ class FnTr:
         return f"({out}some ({code}))"
 
     def e_Subscript(self, e, want):
+        # `df.loc[row, names.col]` -> col[row]
+        if (ast.unparse(e.value) == "df.loc" and isinstance(e.slice, ast.Tuple) and len(e.slice.elts) == 2
+                and f"df[{ast.unparse(e.slice.elts[1])}]" in self.spec.stores):
+            col = self.spec.stores[f"df[{ast.unparse(e.slice.elts[1])}]"]
+            return self.e_Subscript(ast.Subscript(ast.Name(col, ast.Load()), e.slice.elts[0], ast.Load()), want)
         # `x.shape[0]` of a 1-d array
         if (isinstance(e.value, ast.Attribute) and e.value.attr == "shape" and isinstance(e.slice, ast.Constant) and e.slice.value == 0):
             s0, c, t = self.tr(e.value.value)
@@ -651,7 +660,12 @@ class FnTr:
                 return s, f"(Py.arange {c})", ("List", "Int")
         if f == "np.where" and len(args) == 3:
             s0, c, tc = self.tr(args[0]); s1, a, ta = self.tr(args[1]); s2, b, tb = self.tr(args[2])
-            if tc == ("List", "Bool") and ta == ("List", "Int") and tb == ("List", "Int"):
+            if tc == ("List", "Bool") and ta in (("List", "Int"), "Int") and tb in (("List", "Int"), "Int") and (ta, tb) != ("Int", "Int"):
+                # a scalar operand is broadcast to the length of the condition
+                if ta == "Int":
+                    a = f"(({c}).map (fun _ => {a}))"
+                if tb == "Int":
+                    b = f"(({c}).map (fun _ => {b}))"
                 return s0 + s1 + s2, f"(Py.where_ {c} {a} {b})", ("List", "Int")
         if f == "len" and len(args) == 1 and isinstance(args[0], ast.Call) and ast.unparse(args[0].func) == "np.unique":
             s0, c, t = self.tr(args[0].args[0])
@@ -773,6 +787,17 @@ class FnTr:
         if len(s.targets) != 1:
             raise Untranslatable("chained assignment")
         tgt = s.targets[0]
+        ttxt = ast.unparse(tgt)
+        if ttxt in self.spec.stores:
+            # a DataFrame column modelled as a variable: `df[names.pid] = e`
+            return self.s_Assign(ast.Assign([ast.Name(self.spec.stores[ttxt], ast.Store())], s.value))
+        if (isinstance(tgt, ast.Subscript) and ast.unparse(tgt.value) == "df.loc" and isinstance(tgt.slice, ast.Tuple) and len(tgt.slice.elts) == 2
+                and f"df[{ast.unparse(tgt.slice.elts[1])}]" in self.spec.stores):
+            # `df.loc[row, names.col] = e`  ->  col[row] = e
+            col = self.spec.stores[f"df[{ast.unparse(tgt.slice.elts[1])}]"]
+            new = ast.Assign([ast.Subscript(ast.Name(col, ast.Load()), tgt.slice.elts[0], ast.Store())], s.value)
+            ast.copy_location(new, s); ast.fix_missing_locations(new)
+            return self.s_Assign(new)
         if isinstance(tgt, ast.Name):
             want = self.vars.get(tgt.id) or self.extra_vars.get(tgt.id)
             st, c, t = self.tr(s.value, want)
@@ -1126,6 +1151,21 @@ spec(lean="is_bifurcate", module="AlgoCheckers", file="swcgeom/core/swc_utils/ch
 
 spec(lean="is_sorted", module="AlgoCheckers", file="swcgeom/core/swc_utils/checker.py", func="is_sorted",
      params=["topology"], vars={"topology": "(List Int) × (List Int)", "ids": "List Int", "pids": "List Int"}, ret="Bool")
+
+
+_DF = {"df[names.id]": ("v.ids", "List Int"), "df[names.pid]": ("v.pids", "List Int"), "df[names.type]": ("v.types", "List Int")}
+_DFS = {"df[names.id]": "ids", "df[names.pid]": "pids", "df[names.type]": "types"}
+spec(lean="reset_index_", module="AlgoNormalizer", file="swcgeom/core/swc_utils/normalizer.py", func="reset_index_",
+     params=["ids", "pids"], vars={"ids": "List Int", "pids": "List Int", "roots": "List Bool", "root_loc": "Int", "root_id": "Int"},
+     ret="Unit", out=["ids", "pids"], subst=_DF, stores=_DFS, skip_stmts=["names = get_names(names)"],
+     doc="`swcgeom/core/swc_utils/normalizer.py::reset_index_` (the DataFrame columns are the variables `ids`, `pids`)")
+spec(lean="mark_roots_as_somas_", module="AlgoNormalizer", file="swcgeom/core/swc_utils/normalizer.py", func="mark_roots_as_somas_",
+     params=["ids", "pids", "types", "update_type"],
+     vars={"ids": "List Int", "pids": "List Int", "types": "List Int", "update_type": "Option Int", "roots": "List Bool", "root_loc": "Int", "root_id": "Int"},
+     ret="Unit", out=["pids", "types"],
+     subst=dict(_DF, **{"update_type is not False": ("(v.update_type).isSome", "Bool"), "update_type": ("(v.update_type.getD 0)", "Int")}),
+     stores=_DFS, skip_stmts=["names = get_names(names)"],
+     doc="`swcgeom/core/swc_utils/normalizer.py::mark_roots_as_somas_` (DataFrame columns as variables; `update_type=False` is `none`)")
 
 
 def regenerate(modules=None):
